@@ -408,6 +408,15 @@ impl Cluster {
                 flat.push((*a, n.clone()));
             }
         }
+        // partial needs come out of a HashMap: canonical order = per actor, Full needs by start version,
+        // then Partial needs by version (the model sorts the same way)
+        flat.sort_by_key(|(a, n)| {
+            (*a, match n {
+                SyncNeedV1::Full { versions } => (0u8, versions.start().0),
+                SyncNeedV1::Partial { version, .. } => (1u8, version.0),
+                SyncNeedV1::Empty { .. } => (2u8, 0),
+            })
+        });
         let need_txt: Vec<String> = flat.iter().map(|(a, n)| Self::show_need(a, n)).collect();
         // the server: process_sync's filter is part of C05's own op family; here every computed need is looked up
         let mut conn = match self.read_conn(src) {
@@ -758,10 +767,8 @@ pub fn gen_cluster_case(rng: &mut crate::rng::Rng, mix: &GenMix) -> Vec<String> 
                     };
                     items.push(format!("o:{site}:{ver}:{spec}"));
                 }
-                if rng.chance(1, 12) {
-                    let v = rng.range(1, vers[site] + 1);
-                    items.push(format!("e:{site}:{v}-{}", v + rng.range(0, 1)));
-                }
+                // (Empty changesets are never invented here: claiming that a version is empty when it is not is
+                //  outside the property — they only come out of the real `handle_need` during `nsync`)
                 ops.push(format!("nb {dst} {}", items.join("|")));
             }
             12..=15 => {
